@@ -144,9 +144,13 @@ def eval_direct_1d(g, name, dir, d, par, res=None):
     """direct namedBC call + wall-flux check for sym; returns list of (site, what, case)"""
     model = space.euler.euler1d(gamma=g)
     viols = []
+    din = [d[0].copy(), d[1].copy(), d[2].copy()]
+    pin = dict(par)
     with np.errstate(all="ignore"):
-        W = model.namedBC(name, dir, [d[0].copy(), d[1].copy(), d[2].copy()], dict(par))
+        W = model.namedBC(name, dir, din, pin)
     out = judge_1d(g, name, dir, d, par, W)
+    same_in = all(np.array_equal(a, b) for a, b in zip(din, d)) and pin == par
+    out.append(("does-not-modify-its-input", np.where(same_in, 0.0, np.inf) * np.ones(d[0].size), np.ones(d[0].size, bool)))
     if name == "sym":
         W = [np.asarray(w, float) for w in W]
         for fl in space.fluxes(model):
